@@ -1,5 +1,6 @@
 import Dtr.Proofs.Expand
 import Dtr.Proofs.ExpandClosed
+import Dtr.Props.C06
 /-!
 # C05 — clock (`C`) and don't-care (`X`) inputs expand into the documented row sequences
 
@@ -141,5 +142,16 @@ the left `X` gets bit 0 (= 0), the right `X` bit 1 (= 1) -/
 example (tc : TestCase) (h : ∀ i, entryIsInput tc i = true) :
     assignFrom tc [.x, .num 5, .x] 0 2 = [.num 0, .num 5, .num 1] := by
   simp [assignFrom, isInputX, h]
+
+/-- **An expansion survives the failure of one of its calls.**  When the call made for one row of an expansion fails —
+the driver returns an error, or its answer is refused — the rows of the expansion that have not been handed out yet stay
+on the row stack: a caller who goes on receives the rest of the clock triple / of the `X` assignments exactly as
+`C05_drain_eq_spec` describes the draining of that stack (`RowIt.nextC`: the state of the code behind every item). -/
+theorem C05_expansion_survives_errors {δ : Type} (tc : TestCase) (drv : Driver δ) (fuel : Nat) (s s' : RowIt) (d d' : δ)
+    (e : IterErr) (calls : List Call) (hc : calls ≠ [])
+    (h : s.nextC tc drv fuel d = .item (.err e) s' d' calls) :
+    ∃ ev sg, getRow tc fuel s = .row ev sg ∧ s'.cache = sg.cache :=
+  let ⟨ev, sg, hg, _, hcache, _⟩ := C06_prev_behind_every_item tc drv fuel s s' d d' (.err e) calls hc h
+  ⟨ev, sg, hg, hcache⟩
 
 end Dtr
